@@ -3,7 +3,7 @@ CONSTANTS
   M = 3
   Fam = "pen"
   PMax = 2
-  NPen = {1, 2, 3}
+  NPen = {0, 1, 2, 3}
   GVals <- G1
   KS = {1, 2, 3}
 INVARIANT AndZeroIffAll
@@ -11,4 +11,7 @@ INVARIANT OrZeroIffAny
 INVARIANT AndIsSum
 INVARIANT OrIsMin
 INVARIANT OrLeAnd
+INVARIANT Homogeneous
+INVARIANT LinearInK
+INVARIANT AndZeroAtIter
 INVARIANT Emit
